@@ -502,6 +502,9 @@ def eq2xyz(ra, dec, dtype="f8", units="deg", stomp=False):
 
     # in place is more efficient
     if units == "deg":
+        # reduce to one turn first (exact): converting a longitude many
+        # turns out to radians loses accuracy
+        np.fmod(theta, 360.0, theta)
         np.deg2rad(theta, theta)
         np.deg2rad(phi, phi)
 
